@@ -1,6 +1,7 @@
 import EpyVerif.Model.Pulse
 import EpyVerif.Lemmas.QueueSpec
 import EpyVerif.Lemmas.Dyn
+import EpyVerif.Lemmas.Groups
 /-!
 # C20 — Pulse-coupled oscillators always have exactly one scheduled firing
 
@@ -531,6 +532,17 @@ theorem sync_pair (O : Ops K) (hfw : ∀ t phi, ¬ O.fireAt t phi < t) (t ft : K
   obtain ⟨s1, e1, o1, c1, f1, sm1⟩ := cascade_step O hfw t m1 (cascade O t m2 k) s h h1 hnow
   obtain ⟨s2, e2, o2, c2, f2, _⟩ := cascade_step O hfw t m2 k s1 o1 (by rw [sm1.nodes]; exact h2) (by rw [sm1.now]; exact hnow)
   refine ⟨s2, by rw [e1, e2], o2, (f2 m1 hne _).2 (c1 ft d1), c2 ft ((f1 m2 (fun hh => hne hh.symm) ft).2 d2)⟩
+
+/-- **the counting argument**: every node bumped by one cascade at time `t` goes from its due time `φ m` to `cascadeTime O t (φ m)`
+    (`cascade_step`), one function of the old due time; hence among the bumped nodes the number of distinct due times does not
+    grow, no synchronised group shrinks, and a group of size `m` stays one of size at least `m` -/
+theorem cascade_groups [DecidableEq K] (O : Ops K) (t : K) (bumped : Finset Node) (φ : Node → K) :
+    (bumped.image (fun n => cascadeTime O t (φ n))).card ≤ (bumped.image φ).card ∧
+    (∀ a ∈ bumped, (bumped.filter (fun b => φ b = φ a)).card ≤ (bumped.filter (fun b => cascadeTime O t (φ b) = cascadeTime O t (φ a))).card) ∧
+    ∀ m, (∃ a ∈ bumped, m ≤ (bumped.filter (fun b => φ b = φ a)).card) →
+      ∃ a ∈ bumped, m ≤ (bumped.filter (fun b => cascadeTime O t (φ b) = cascadeTime O t (φ a))).card :=
+  ⟨(Groups.through bumped φ (cascadeTime O t)).1, (Groups.through bumped φ (cascadeTime O t)).2,
+   fun m hm => Groups.largest bumped φ (fun n => cascadeTime O t (φ n)) (fun _ _ _ _ e => congrArg _ e) m hm⟩
 
 /-! ### phases -/
 
